@@ -54,7 +54,7 @@ def main() -> int:
     out.write_text(json.dumps(dict(sorted(results.items())), indent=1) + "\n")
     bad = [k for k, v in results.items() if v["status"] != "caught"]
     print(f"{len(results) - len(bad)}/{len(results)} seeded changes caught" + (f"; NOT caught: {bad}" if bad else ""))
-    # the checks above rewrote evidence files from scratch trees: the caller should re-run the quick checks on /repo
+    # (runs against scratch trees write their evidence to .work/evidence-scratch, never to evidence/)
     return 1 if bad else 0
 
 
